@@ -71,6 +71,10 @@ func (fc *FuncCtx) evalIntrinsic(st *State, call *ast.CallExpr, fn *types.Func, 
 		for i := 0; i < sig.Results().Len(); i++ {
 			rs = append(rs, fc.fresh("r_"+fn.Name(), sig.Results().At(i).Type()))
 		}
+		if n := len(rs); n > 0 && types.TypeString(rs[n-1].T, nil) == "error" {
+			// ghost <Callee>_err: the error of the latest decoding call (a target filled by a failed decode must not be used)
+			st.ghost[fn.Name()+"_err"] = rs[n-1]
+		}
 		return rs
 	}
 	fc.fail(call, "unknown intrinsic %s", spec[0])
